@@ -235,7 +235,32 @@ def gen_overlap_case(rng, n):
             "fsched": rng.choice([[NOCAP * 1000], [1, NOCAP * 1000]])}
 
 
-def gen_case(rng, n, big=False, reuse=False):
+# sizes of metadata files at and around the sizes a sender may cut at (page, 64 KiB pieces, shmem buffer)
+META_SIZES = [0, 1, 4095, 4096, 4097, 8192, 65535, 65536, 65537, 131071, 131072, 131073, 196608, 262144, 1048576]
+
+
+def mkbytes(name, size, seed):
+    import random
+    b = random.Random(seed).randbytes(size)
+    return (MAGIC + bytes(32) + b)[:max(size, 40)] if name == b"info" else b
+
+
+def add_sized_files(rng, c, sizes):
+    """metadata files of exactly the given sizes (content from a seed: replays stay small)"""
+    spec = c.setdefault("filespec", {})
+    kinds = rng.sample(range(5 if len(sizes) > 1 else 4), len(sizes))      # (info is not sent by send_trace_metadata)
+    for sz, kd in zip(sizes, kinds):
+        name = [b"big%d.sym" % sz, b"lib%d.so.dbg" % sz, b"sid-%x.map" % sz, b"task.txt", b"info"][kd]
+        seed = rng.randrange(1 << 30)
+        spec[name.hex()] = [sz, seed]
+        c["files"][name] = mkbytes(name, sz, seed)
+    if any(op == ("meta", b"events.txt") for op in c["ops"]):
+        pass
+    c["wsched"] = rng.choice([[65536], [NOCAP * 100], [4096, -1, 100000], [8, 4, 1 << 20], [65536 + 12, 1 << 20]])
+    c["lsched"] = [1 << 20]
+
+
+def gen_case(rng, n, big=False, reuse=False, metasizes=None):
     """a case: phases (harness runs over the same server directory), each with 1-4 concurrent clients"""
     k = 1 if big else rng.choice([1, 1, 2, 2, 3, 4])
     names = rng.sample([b"a.data", b"b.data", b"uftrace.data", b"x", b"trace.dir", b"n1", b"n2"], k)
@@ -245,8 +270,10 @@ def gen_case(rng, n, big=False, reuse=False):
         c2 = gen_client(rng, 0, names[0])
         phases.append([c2])
         phase[0]["where"] = names[0] + b".old"
-    return {"n": n, "big": big, "phases": phases, "rsched": gen_rsched(rng, big),
-            "fsched": rng.choice([[NOCAP * 1000], [1, NOCAP * 1000], [-1, 7, 100000]])}
+    if metasizes:
+        add_sized_files(rng, phase[0], metasizes)
+    return {"n": n, "big": big, "phases": phases, "rsched": gen_rsched(rng, big or bool(metasizes)),
+            "fsched": rng.choice([[NOCAP * 1000], [1, NOCAP * 1000], [-1, 7, 100000]]) if not metasizes else [NOCAP * 1000]}
 
 
 # ---------------------------------------------------------------- running the harness
@@ -464,7 +491,8 @@ def evaluate_sub(ctx, pairs, name):
 def jcase(case):
     def jc(c):
         o = {"dir": c["dir"].hex(), "where": c["where"].hex(), "wsched": c["wsched"], "lsched": c["lsched"],
-             "files": {n.hex(): v.hex() for n, v in c["files"].items()},
+             "files": {n.hex(): v.hex() for n, v in c["files"].items() if n.hex() not in c.get("filespec", {})},
+             "filespec": c.get("filespec", {}),
              "ops": [[(x.hex() if isinstance(x, (bytes, bytearray)) else x) for x in op] for op in c["ops"]],
              "idx": c["idx"]}
         for k in ("raw", "no_end", "abort", "after", "split", "pre_ops"):
@@ -489,6 +517,9 @@ def unjcase(j):
         c = {"idx": o["idx"], "dir": bytes.fromhex(o["dir"]), "where": bytes.fromhex(o["where"]),
              "wsched": o["wsched"], "lsched": o["lsched"],
              "files": {bytes.fromhex(n): bytes.fromhex(v) for n, v in o["files"].items()}, "ops": ops}
+        for n, (sz, seed) in o.get("filespec", {}).items():
+            c["files"][bytes.fromhex(n)] = mkbytes(bytes.fromhex(n), sz, seed)
+        c["filespec"] = o.get("filespec", {})
         if "raw" in o:
             c["raw"] = [bytes.fromhex(r) for r in o["raw"]]
         for k in ("no_end", "abort", "after", "split"):
@@ -508,7 +539,8 @@ def observed(case):
             def show(d):
                 if d is None:
                     return None
-                return {n.decode(errors="replace"): (v.hex() if isinstance(v, bytes) else [v[0], v[1].hex()])
+                return {n.decode(errors="replace"): ((v.hex() if len(v) <= 256 else "%d bytes, sha1 %s" % (len(v), hashlib.sha1(v).hexdigest()[:16]))
+                                                     if isinstance(v, bytes) else [v[0], v[1].hex()])
                         for n, v in sorted(d.items())}
             out.append({"dir": c["dir"].decode(), "client_exit": c.get("exit"), "local": show(c.get("local")),
                         "received": show(c.get("recv"))})
@@ -543,6 +575,12 @@ def case_tags(case):
         t.append("dirname-reused-sequentially")
     if case.get("overlap"):
         t.append("concurrent-clashing-names:" + case["overlap"])
+    for ph in case["phases"]:
+        for c in ph:
+            for n, (sz, seed) in c.get("filespec", {}).items():
+                t.append("metadata-file-size=%s" % ("k*64K" if sz and sz % 65536 == 0 else "k*64K-1" if (sz + 1) % 65536 == 0 else
+                                                    "k*64K+1" if sz > 1 and (sz - 1) % 65536 == 0 else "k*4K" if sz and sz % 4096 == 0 else
+                                                    "0" if sz == 0 else "other"))
     for ph in case["phases"]:
         for c in ph:
             if c.get("abort"):
@@ -1003,6 +1041,7 @@ def e2e_round(ctx, objdir, progs, rnd, spec):
                 "relay_chunk_sizes": dict(sorted(relay.chunks.items()))}
         out.append((digest_dir(loc) or {}, digest_dir(net), meta))
         tags = ["e2e:clients=%d" % k, "e2e:" + kind, "e2e:variant=" + variant] + \
+            (["e2e:metadata-file-size=" + ("k*64K" if int(kind[3:]) % 65536 == 0 else "k*64K-1")] if kind.startswith("sym") else []) + \
             ["e2e:chunk=%d" % c for c in relay.chunks if c in (1, 7, 8, 9, 65536)] + \
             ["e2e:file-kind=" + x for x in sorted(set(
                 "dbg" if n.endswith(b".dbg") else "sym" if n.endswith(b".sym") else "perf" if n.startswith(b"perf-") else
@@ -1163,6 +1202,48 @@ def e2e_verdict(ctx, results):
                       {"mode": "e2e", "case": meta, "differing": diff}, True)
 
 
+def sized_prog_source(extra):
+    """a C program whose functions add `extra` bytes to its .sym file: every function is one line
+    "<addr:16> <size:8> T <name>\\n" = 29 + len(name) bytes (after /tmp/seedout/C16-5/demo/gen.py)"""
+    LINE, BIG = 29, 60
+    lens = []
+    while extra >= 3 * (LINE + BIG):
+        lens.append(BIG)
+        extra -= LINE + BIG
+    rest = extra - 2 * LINE
+    lens += [rest // 2, rest - rest // 2]
+    names = [("fn%05d_" % i) + "x" * (l - 8) for i, l in enumerate(lens)]
+    out = ["int %s(int x) { return x + 1; }" % n for n in names]
+    picks = [names[0], names[len(names) // 2], names[-2], names[-1]]
+    out += ["int main(void)", "{", "\tint v = 0;"] + ["\tv = %s(v);" % n for n in picks] + ["\treturn v == %d ? 0 : 1;" % len(picks), "}"]
+    return "\n".join(out) + "\n"
+
+
+def build_sized_prog(ctx, objdir, target):
+    """a -pg program whose symbol file <prog>.sym is EXACTLY `target` bytes (a metadata file at a size where a sender
+    that cuts files into pieces may slip); returns the path or None"""
+    uft = os.path.join(objdir, "uftrace")
+    root = os.path.join(ctx.scratch, "prog")
+    os.makedirs(root, exist_ok=True)
+    exe = os.path.join(root, "pz%d" % target)
+    extra = target - 2000
+    for _ in range(6):
+        open(exe + ".c", "w").write(sized_prog_source(extra))
+        sh(["gcc", "-pg", "-no-pie", "-O0", "-o", exe, exe + ".c"], check=True)
+        tmp = exe + ".data"
+        shutil.rmtree(tmp, ignore_errors=True)
+        rc, o, e = sh(record_cmd(uft, objdir, [], tmp, [exe]), timeout=60)
+        symf = os.path.join(tmp, os.path.basename(exe) + ".sym")
+        if rc != 0 or not os.path.exists(symf):
+            return None
+        size = os.path.getsize(symf)
+        shutil.rmtree(tmp, ignore_errors=True)
+        if size == target:
+            return exe
+        extra += target - size
+    return None
+
+
 def e2e_progs(ctx, objdir):
     """the traced programs and a symbol directory for --with-syms (the .sym/.dbg files of a --srcline recording)"""
     ps, pm = build_progs(ctx)
@@ -1175,7 +1256,14 @@ def e2e_progs(ctx, objdir):
         for n in os.listdir(tmp) if rc == 0 else []:
             if n.endswith((".sym", ".dbg")):
                 shutil.copy(os.path.join(tmp, n), os.path.join(symdir, n))
-    return {"single": ps, "mt": pm, "symdir": symdir}
+    progs = {"single": ps, "mt": pm, "symdir": symdir}
+    for target in ctx.n([65536], [65536, 131072, 65535]):
+        exe = build_sized_prog(ctx, objdir, target)
+        if exe is None:
+            ctx.broken("e2e: could not build a program whose .sym file has exactly %d bytes" % target)
+        else:
+            progs["sym%d" % target] = exe
+    return progs
 
 
 def e2e(ctx, objdir):
@@ -1196,6 +1284,10 @@ def e2e(ctx, objdir):
                              [ctx.rng.choice([2, 4]), ctx.rng.choice([3000, 9000])], variant])
             else:
                 runs.append(["single", [], [ctx.rng.choice([0, 1, 3, 50, 3000])], variant])
+        sized = sorted(k for k in progs if k.startswith("sym") and k != "symdir")
+        if sized and rnd < max(1, len(sized)):
+            # a symbol file of exactly k * 64 KiB (+-1): a metadata file at a size where a chunking sender may slip
+            runs.append([sized[rnd % len(sized)], [], [], ctx.rng.choice(["plain", "srcline"])])
         spec = {"relay_seed": ctx.rng.randrange(1 << 30), "runs": runs, "stagger": ctx.rng.choice([0.0, 0.0, 0.02])}
         results += e2e_round(ctx, objdir, progs, rnd, spec)
     e2e_verdict(ctx, results)
@@ -1302,7 +1394,9 @@ def common_meta(ctx):
                 "connection is reset after its directory name / some data, followed by a client on the re-used descriptor; every "
                 "10th: two clients connected at the same time with clashing directory names (same, NAME/NAME.old); e2e also: "
                 "two `record --host` at once with the default name, and a byte-for-byte comparison of the metadata files "
-                "the recorder had in its own directory (hard-linked while it runs) with what the receiver stored")
+                "the recorder had in its own directory (hard-linked while it runs) with what the receiver stored; metadata "
+                "files of 0 / k*4 KiB / k*64 KiB / k*64 KiB+-1 bytes (in-process, all of META_SIZES per run) and a program "
+                "whose .sym file has exactly 64 KiB (e2e)")
     ctx.trusted = [
         "Coq 8.16.1 kernel incl. vm_compute; no axioms (Print Assumptions: closed under the global context)",
         "hand-written model coq/theories/C16/Model.v of utils/utils.c read_all/write_all/writev_all, cmds/recv.c "
@@ -1398,11 +1492,17 @@ def run(ctx):
     nsmall = ctx.n(100, 2000)
     cases = [gen_reset_case(rng, i) if i % 10 == 7 else gen_overlap_case(rng, i) if i % 10 == 3 else
              gen_case(rng, i, reuse=(i % 9 == 4)) for i in range(nsmall)]
+    # metadata files of exactly 64 KiB (thorough: also the neighbours) with the full model comparison
+    for i, sz in enumerate(ctx.n([65536], [65536, 65535, 65537, 131072, 4096, 196608])):
+        cases[5 + 20 * i] = gen_case(rng, 5 + 20 * i, metasizes=[sz])
     per = 200
     for off in range(0, len(cases), per):
         run_small(ctx, exe, cases[off:off + per], "small%d" % (off // per))
     # 2. big payloads
-    run_big(ctx, exe, [gen_case(rng, i, big=True) for i in range(ctx.n(6, 50))])
+    sizes = list(META_SIZES)
+    rng.shuffle(sizes)
+    run_big(ctx, exe, [gen_case(rng, i, big=True, metasizes=[sizes[(3 * i + j) % len(sizes)] for j in range(3)])
+                       for i in range(ctx.n(6, 50))])
     # 3. malformed streams (model and implementation die on the same streams)
     raws = []
     for _ in range(ctx.n(1, 6)):
